@@ -867,6 +867,12 @@ func (ex *Exec) instr(fr *Frame, b *ssa.BasicBlock, in ssa.Instruction, st *Stat
 		}
 		fr.defers = append(fr.defers, d)
 	case *ssa.Send:
+		if ci := ex.chanInvOf(x.Chan); ci != nil {
+			env := &SpecEnv{vars: map[string]Val{ci.Var: ex.get(fr, x.X, st)}, st: st, lst: st, pkg: fr.fn.Pkg.Pkg, topOld: fr.entry.top}
+			env.old = env
+			o := ex.vc.oblige("chaninv", fr.name("chaninv:"+ci.Field), reach, ex.evalBool(ci.E, env), ex.where(x.Pos()))
+			o.Descr = "value sent on " + ci.Field + " satisfies the channel invariant: " + ci.Text
+		}
 		// channel send: no effect on modelled memory (channels are opaque); single-thread assumption
 		ex.vc.Assumptions["channels are opaque: a send has no modelled effect, a receive yields an arbitrary value (no deadlock reasoning)"] = true
 	case *ssa.Select:
@@ -879,8 +885,29 @@ func (ex *Exec) instr(fr *Frame, b *ssa.BasicBlock, in ssa.Instruction, st *Stat
 		ex.vc.assume(And(Le(lo, idx), Lt(idx, IntLit(int64(len(x.States))))))
 		tv := TupleV{E: []Val{Scalar{idx, types.Typ[types.Int]}, Scalar{ex.vc.fresh("selok", SBool), types.Typ[types.Bool]}}}
 		tup := x.Type().(*types.Tuple)
-		for i := 2; i < tup.Len(); i++ {
-			tv.E = append(tv.E, ex.freshVal("recv", tup.At(i).Type(), st))
+		ri := 2
+		for si, sst := range x.States {
+			if sst.Dir != types.RecvOnly {
+				continue
+			}
+			if ri >= tup.Len() {
+				break
+			}
+			rv := ex.freshVal("recv", tup.At(ri).Type(), st)
+			if ci := ex.chanInvOf(sst.Chan); ci != nil {
+				env := &SpecEnv{vars: map[string]Val{ci.Var: rv}, st: st, lst: st, pkg: fr.fn.Pkg.Pkg, topOld: fr.entry.top}
+				env.old = env
+				ex.vc.assume(Implies(And(reach, Eq(idx, IntLit(int64(si)))), ex.evalBool(ci.E, env)))
+			}
+			tv.E = append(tv.E, rv)
+			ri++
+		}
+		for _, sst := range x.States {
+			if sst.Dir == types.SendOnly {
+				if ci := ex.chanInvOf(sst.Chan); ci != nil {
+					panic(unsupported("select with a send on a channel carrying an invariant (%s)", ci.Field))
+				}
+			}
 		}
 		fr.regs[x] = tv
 	case *ssa.MakeChan:
@@ -1131,4 +1158,39 @@ func (ex *Exec) goStmt(fr *Frame, c *ssa.CallCommon, st *State, reach Term, pos 
 	nt := ex.vc.fresh("top", SInt)
 	ex.vc.assume(Ge(nt, topPre))
 	st.top = nt
+	// postconditions labelled stable-* are invariants the goroutine maintains at every instant
+	// (each of its writes re-establishes them); they may be assumed while it runs
+	post := &SpecEnv{vars: vars, st: st, lst: st, pkg: fn.Pkg.Pkg, old: env, topOld: topPre}
+	for _, e := range ct.Ensures {
+		if strings.HasPrefix(e.Label, "stable-") {
+			ex.vc.assume(Implies(reach, ex.evalBool(e.E, post)))
+			ex.vc.Assumptions["stable invariant of a started goroutine assumed while it runs: "+e.Text] = true
+		}
+	}
+}
+
+// chanInvOf finds the channel invariant attached to the struct field a channel value was loaded from.
+func (ex *Exec) chanInvOf(ch ssa.Value) *ChanInv {
+	ld, ok := ch.(*ssa.UnOp)
+	if !ok || ld.Op != token.MUL {
+		return nil
+	}
+	fa, ok := ld.X.(*ssa.FieldAddr)
+	if !ok {
+		return nil
+	}
+	pt, ok := under(fa.X.Type()).(*types.Pointer)
+	if !ok {
+		return nil
+	}
+	named, ok := pt.Elem().(*types.Named)
+	if !ok || named.Obj().Pkg() == nil {
+		return nil
+	}
+	st, ok := under(named).(*types.Struct)
+	if !ok {
+		return nil
+	}
+	key := named.Obj().Pkg().Path() + "." + named.Obj().Name() + "." + st.Field(fa.Field).Name()
+	return ex.prog.Contracts.ChanInvs[key]
 }
